@@ -109,8 +109,11 @@ def monotone(F, e, k):
 
 # ------------------------------------------------------------------------------------------ callee contract of collect
 def as_val(x):
+    from fractions import Fraction
     if z3.is_expr(x) and x.sort() == M.ExprS:
         return M.leaf_val(x)
+    if isinstance(x, (int, Fraction)) and not isinstance(x, bool):
+        return M.v_fin(x)
     return x
 
 
